@@ -365,7 +365,7 @@ FAULT_KINDS = ("KeyboardInterrupt", "MemoryError", "RecursionError")
 def gen_config(rng, fault_class=None):
     """Per-run swarm configuration. ``fault_class``: None = draw, True/False = force."""
     flavour = rng.choices(
-        ["mixed", "version", "string", "extras", "pv_pfv", "groups"], weights=[5, 4, 2, 1, 3, 2])[0]
+        ["mixed", "version", "string", "extras", "pv_pfv", "groups"], weights=[5, 4, 2, 2, 3, 2])[0]
     if flavour == "version":
         kind_weights = [1.0, 0.0, 0.0]
     elif flavour in ("string", "groups"):
@@ -404,13 +404,13 @@ def gen_config(rng, fault_class=None):
     rewrites = [w for w in REWRITES if rng.random() < 0.75] or ["flip"]
     roll = rng.random()
     marathon = roll < 0.01
-    saturation = 0.01 <= roll < 0.025
-    heavy = 0.025 <= roll < 0.04
+    saturation = 0.01 <= roll < 0.035
+    heavy = 0.035 <= roll < 0.05
     cfg = {
         "marathon": marathon,
         "saturation": saturation,
         "heavy": heavy,
-        "max_probes": 160 if saturation else 40,
+        "max_probes": 100 if saturation else 40,
         "flavour": flavour,
         "kind_weights": kind_weights,
         "bases": bases,
@@ -426,7 +426,7 @@ def gen_config(rng, fault_class=None):
         "p_chain": rng.choice([0.2, 0.4, 0.4, 0.85]),
         "p_echo": rng.choice([0.0, 0.15, 0.35, 0.6]),
         "p_borrow": rng.choice([0.0, 0.0, 0.15, 0.4]),
-        "battery": rng.choice([0, 0, 4, 8]),
+        "battery": rng.choice([0, 4, 8]),
         "order_ops": order_ops,
         "p_flip": rng.choice([0.0, 0.15, 0.3, 0.5]),
         "p_long_pv": rng.choice([0.1, 0.1, 0.5]),
@@ -765,7 +765,7 @@ def schedule_program(rng, base, variant=False, fault_class=None):
         cfg["shims"] = rng.random() < 0.5
         cfg["p_echo"] = rng.choice([0.0, 0.15, 0.35, 0.6])
         cfg["p_borrow"] = rng.choice([0.0, 0.0, 0.15, 0.4])
-        cfg["battery"] = rng.choice([0, 0, 4, 8])
+        cfg["battery"] = rng.choice([0, 4, 8])
     # schedule: which client issues its next op
     cursors = [0] * len(scripts)
     order = []
